@@ -1,234 +1,81 @@
-import Hls.Proofs.Render
-import Hls.Proofs.KeySet
-import Hls.Props.C11
+import Hls.Proofs.MediaRT
 /-!
 # C03 — a media playlist survives serialise → parse
 
-The stateful part of the property is the writer's "keys already announced" set, which has to be
-the mirror image of the parser's "keys in effect" set.  Both are shown to implement the same
-specification (`C06.KeySpec`), hence — being sorted duplicate-free listings — they are *equal*
-after every written key line (`key_lines_mirror`).
+Headline statements (helper lemmas: `Proofs/KeyMirror.lean`, `Proofs/MediaRT.lean`,
+`Proofs/Render.lean`):
 
-Status (see DESIGN.md §7 C03): the key mirror, the text-level reduction to typed lines and the
-three recorded counterexamples (K2, K3, K4) are proved; the assembly of the full playlist round
-trip over typed lines (`media_write_parse`) is in `Props/C03Full.lean` when present.
+* `media_write_parse` — **for every media playlist value the parser can produce** (from any typed
+  line list, entry points `try_from` / `from_str` / `builder().allowable_excess_duration(e).parse`)
+  whose keys come from text (`LinesNoNum`: no "derived" IV in the input, which text cannot
+  express) and that is free of the two recorded shapes `NoK2` / `NoK3`, the writer produces lines
+  and the parser's state machine run on those lines returns **exactly the same value**: same
+  playlist-level values, segments, numbers, URIs, durations, titles, byte ranges, flags, date ranges,
+  maps with their key coverage, per-segment keys with their effective IVs, unknown tags.
+* `media_roundtrip` — the same through `to_string()` and the text parser, given that each written
+  line's text classifies back to the line (`LineRT`).
+* `media_fixed_point` — the second serialisation is byte-identical.
+* `key_mirror` — the stateful heart: after the lines the writer emits for one key, the parser's
+  keys in effect equal the writer's announced set.
+* `k2_counterexample`, `k3_counterexample` — the two recorded histories on which the statement
+  without `NoK2` / `NoK3` is false; `control_roundtrip` — the same shapes repaired.
 -/
 namespace Hls.C03
-open Hls C06
+open Hls C06 C03K
 
-/-- the parser's reaction to a written line, as far as the keys in effect are concerned -/
-def keyOfLine (P : List ExtXKey) : Line → List ExtXKey
-  | .key k => updateKeys P k
-  | _ => P
-
-def stripKey : ExtXKey → ExtXKey
-  | some k => some (stripIv k)
-  | none => none
-
-theorem findReplaced_spec (k : DecryptionKey) (l : List ExtXKey) (hn : ∀ x ∈ l, x ≠ none) :
-    (findReplaced k l = .ok none ∧ ∀ d, some d ∈ l → normFormat d = normFormat k → d = k) ∨
-    (∃ d, findReplaced k l = .ok (some (some d)) ∧ some d ∈ l ∧ normFormat d = normFormat k ∧ d ≠ k) := by
-  induction l with
-  | nil => left; simp [findReplaced]
-  | cons x xs ih =>
-    cases x with
-    | none => exact absurd rfl (hn none (by simp))
-    | some o =>
-      have hn' : ∀ x ∈ xs, x ≠ none := fun x hx => hn x (by simp [hx])
-      simp only [findReplaced]
-      by_cases hc : (normFormat o == normFormat k && some k != some o) = true
-      · right
-        simp only [Bool.and_eq_true, beq_iff_eq, bne_iff_ne, ne_eq, Option.some.injEq] at hc
-        exact ⟨o, by simp [hc.1, hc.2], by simp, hc.1, fun e => hc.2 e.symm⟩
-      · simp only [hc, Bool.false_eq_true, if_false]
-        have hc' : normFormat o = normFormat k → o = k := by
-          intro e
-          simp only [Bool.and_eq_true, beq_iff_eq, bne_iff_ne, ne_eq, Option.some.injEq, not_and, Decidable.not_not] at hc
-          exact (hc e).symm
-        rcases ih hn' with ⟨h1, h2⟩ | ⟨d, h1, h2, h3, h4⟩
-        · left
-          refine ⟨h1, ?_⟩
-          intro d hd e
-          simp only [List.mem_cons, Option.some.injEq] at hd
-          rcases hd with rfl | hd
-          · exact hc' e
-          · exact h2 d hd e
-        · right; exact ⟨d, h1, by simp [h2], h3, h4⟩
-
-theorem step_idem (m : KeyFormat → Option DecryptionKey) (k : DecryptionKey) (h : m (normFormat k) = some k) :
-    (KeySpec.keys m).step (some k) = .keys m := by
-  simp only [KeySpec.step]
-  congr 1; funext f
-  split
-  · rename_i e; rw [e, h]
-  · rfl
-
-/-- **the writer refines the key specification**: handling one key of a segment moves the
-announced set along the specification's step for the (IV-stripped) key, and emits either nothing
-(the key is already in effect) or exactly that key line -/
-theorem writer_refines (W : List ExtXKey) (s : KeySpec) (key : ExtXKey) (out : List Line)
-    (ha : Abs W s) (hs : KSorted W) :
-    ∃ W' em, writeKeyStep (W, out) key = .ok (W', out ++ em) ∧ Abs W' (s.step (stripKey key)) ∧ KSorted W' ∧
-      ((em = [] ∧ s.step (stripKey key) = s) ∨ em = [Line.key (stripKey key)]) := by
-  cases key with
-  | none =>
-    refine ⟨[none], [Line.key none], rfl, ?_, ?_, Or.inr rfl⟩
-    · cases s <;> simp [KeySpec.step, stripKey, Abs]
-    · simp [KSorted]
-  | some dk =>
-    simp only [writeKeyStep, stripKey]
-    cases s with
-    | marker =>
-      simp only [Abs] at ha; subst ha
-      have e1 : setRemove none [none] = [] := by
-        simp [setRemove, ExtXKey.cmp, cmpOpt]
-      simp only [e1, setContains, List.any_nil, Bool.false_eq_true, if_false, setInsert, findReplaced]
-      have e2 : (normFormat (stripIv dk) == normFormat (stripIv dk) && some (stripIv dk) != some (stripIv dk)) = false := by simp
-      simp only [e2, Bool.false_eq_true, if_false]
-      refine ⟨_, [Line.key (some (stripIv dk))], rfl, ?_, by simp [KSorted], Or.inr rfl⟩
-      simp only [KeySpec.step, Abs]
-      refine ⟨by simp, ?_⟩
-      intro k
-      simp only [List.mem_singleton, Option.some.injEq]
-      constructor
-      · intro e; subst e; simp
-      · intro e; split at e
-        · exact (Option.some.inj e).symm
-        · cases e
-    | keys m =>
-      obtain ⟨hnm, hmem⟩ := ha
-      have e1 : setRemove none W = W := by
-        simp only [setRemove]
-        apply List.filter_eq_self.mpr
-        intro x hx
-        cases x with
-        | none => exact absurd rfl (hnm none hx)
-        | some _ => simp [ExtXKey.cmp, cmpOpt]
-      simp only [e1]
-      by_cases hc : setContains (some (stripIv dk)) W = true
-      · simp only [hc, if_true]
-        have hin : some (stripIv dk) ∈ W := (setContains_iff _ _).mp hc
-        have := (hmem _).mp hin
-        exact ⟨W, [], by simp, by rw [step_idem m _ this]; exact ⟨hnm, hmem⟩, hs, Or.inl ⟨rfl, step_idem m _ this⟩⟩
-      · simp only [hc, Bool.false_eq_true, if_false]
-        have hnin : some (stripIv dk) ∉ W := fun h => hc ((setContains_iff _ _).mpr h)
-        have hs2 := KSorted_setInsert (some (stripIv dk)) W hs
-        have hn2 : ∀ x ∈ setInsert (some (stripIv dk)) W, x ≠ none := by
-          intro x hx
-          rcases (mem_setInsert _ _ _).mp hx with rfl | hx
-          · simp
-          · exact hnm x hx
-        rcases findReplaced_spec (stripIv dk) _ hn2 with ⟨h1, h2⟩ | ⟨d, h1, h2, h3, h4⟩
-        · simp only [h1]
-          refine ⟨_, [Line.key (some (stripIv dk))], rfl, ⟨hn2, ?_⟩, hs2, Or.inr rfl⟩
-          intro x
-          rw [mem_setInsert]
-          simp only [Option.some.injEq]
-          constructor
-          · rintro (rfl | hx)
-            · simp
-            · have hne : normFormat x ≠ normFormat (stripIv dk) := by
-                intro e
-                have := h2 x ((mem_setInsert _ _ _).mpr (Or.inr hx)) e
-                subst this; exact hnin hx
-              simp only [hne, if_false]
-              exact (hmem x).mp hx
-          · intro e
-            split at e
-            · left; exact (Option.some.inj e).symm
-            · right; exact (hmem x).mpr e
-        · simp only [h1]
-          have hdW : some d ∈ W := by
-            rcases (mem_setInsert _ _ _).mp h2 with e | h
-            · exact absurd (Option.some.inj e) h4
-            · exact h
-          have hmd : m (normFormat (stripIv dk)) = some d := by rw [← h3]; exact (hmem d).mp hdW
-          refine ⟨_, [Line.key (some (stripIv dk))], rfl, ⟨?_, ?_⟩, KSorted_setRemove _ _ hs2, Or.inr rfl⟩
-          · intro x hx
-            exact hn2 x ((mem_setRemove _ _ _).mp hx).1
-          · intro x
-            rw [mem_setRemove, mem_setInsert]
-            simp only [Option.some.injEq, ne_eq]
-            constructor
-            · rintro ⟨rfl | hx, hne⟩
-              · simp
-              · have hne' : normFormat x ≠ normFormat (stripIv dk) := by
-                  intro e
-                  have := (hmem x).mp hx
-                  rw [e, hmd] at this
-                  exact hne (Option.some.inj this).symm
-                simp only [hne', if_false]
-                exact (hmem x).mp hx
-            · intro e
-              split at e
-              · rename_i ef
-                have : x = stripIv dk := (Option.some.inj e).symm
-                subst this
-                exact ⟨Or.inl rfl, fun e' => h4 e'.symm⟩
-              · rename_i ef
-                refine ⟨Or.inr ((hmem x).mpr e), ?_⟩
-                intro e'; subst e'; exact ef h3
-
-/-- **the mirror**: after the lines the writer emits for one key, the parser's keys in effect
-equal the writer's announced set, provided they were equal before -/
-theorem key_lines_mirror (W : List ExtXKey) (s : KeySpec) (key : ExtXKey) (out : List Line)
+/-- **the writer's announced keys mirror the parser's keys in effect** -/
+theorem key_mirror (W : List ExtXKey) (s : KeySpec) (key : ExtXKey) (out : List Line)
     (ha : Abs W s) (hs : KSorted W) :
     ∃ W' em, writeKeyStep (W, out) key = .ok (W', out ++ em) ∧ em.foldl keyOfLine W = W' ∧
-      Abs W' (s.step (stripKey key)) ∧ KSorted W' := by
-  obtain ⟨W', em, h1, h2, h3, h4⟩ := writer_refines W s key out ha hs
-  refine ⟨W', em, h1, ?_, h2, h3⟩
-  rcases h4 with ⟨rfl, e⟩ | rfl
-  · rw [e] at h2
-    exact C11.listing_canonical _ _ s ha h2 hs h3
-  · simp only [List.foldl_cons, List.foldl_nil, keyOfLine]
-    exact C11.listing_canonical _ _ _ (abs_step W s _ ha) h2 (KSorted_updateKeys W _ hs) h3
+      Abs W' (s.step (stripKey key)) ∧ KSorted W' :=
+  key_lines_mirror W s key out ha hs
 
-/-! ## text level: `to_string()` then `try_from` is the state machine on the written lines -/
+/-- **L2 round trip for every parser-producible value** -/
+theorem media_write_parse (e : Option Nat) (ls : List Line) (p : MediaPlaylist)
+    (h : assembleMedia (bE e) ls = .ok p) (hiv : LinesNoNum ls) (hk2 : NoK2 p) (hk3 : NoK3 p) :
+    ∃ lines, p.writeLines = .ok lines ∧ assembleMedia (bE e) lines = .ok p :=
+  write_parse_wf p e (parsed_wf e ls p h hiv hk2) hk3
 
-theorem media_text_reduction (b : MediaPlaylistBuilder) (p : MediaPlaylist) (ls : List Line) (text : Str)
-    (hw : p.writeLines = .ok ls) (ht : p.show = .ok text) (hrt : ∀ l ∈ ls, LineRT l) :
-    parseMediaWith b text = assembleMedia b ls := by
-  simp only [MediaPlaylist.show, hw, Res.ok.injEq] at ht
-  subst ht
-  exact parseMedia_of_written b ls hrt
+/-- the same for any well-formed value, parsed or built -/
+theorem media_write_parse_wf (p : MediaPlaylist) (e : Option Nat) (wf : WF p e) (hk3 : NoK3 p) :
+    ∃ lines, p.writeLines = .ok lines ∧ assembleMedia (bE e) lines = .ok p :=
+  write_parse_wf p e wf hk3
 
-/-! ## the recorded counterexamples to the full statement (known findings K2, K3), on typed lines -/
+/-- **text round trip**: for every accepted text (keys taken from text never carry a derived IV:
+`text_lines_noNum`), free of the K2 / K3 shapes, `to_string()` then the same entry point gives
+back the same value — provided each written line's text classifies back to the line (`LineRT`) -/
+theorem media_roundtrip (e : Option Nat) (s : Str) (p : MediaPlaylist)
+    (h : parseMediaWith (bE e) s = .ok p) (hk2 : NoK2 p) (hk3 : NoK3 p)
+    (hrt : ∀ lines, p.writeLines = .ok lines → ∀ l ∈ lines, LineRT l) :
+    ∃ text, p.show = .ok text ∧ parseMediaWith (bE e) text = .ok p := by
+  obtain ⟨rest, ls, _, h2, h3⟩ := parseMediaWith_ok (bE e) s p h
+  obtain ⟨lines, w1, w2⟩ := media_write_parse e ls p h3 (text_lines_noNum rest ls h2) hk2 hk3
+  refine ⟨pfxM3u ++ ['\n'] ++ renderLines lines, by simp [MediaPlaylist.show, w1], ?_⟩
+  rw [parseMedia_of_written (bE e) lines (hrt lines w1)]
+  exact w2
 
-def kA : DecryptionKey := ⟨.aes128, ['a'], .missing, none, none⟩
-def kB : DecryptionKey := ⟨.aes128, ['b'], .missing, some (.other ['f']), none⟩
-def inf1 : ExtInf := ⟨1000000000, none⟩
+/-- **serialisation is a fixed point after one round** -/
+theorem media_fixed_point (e : Option Nat) (s : Str) (p p' : MediaPlaylist) (text : Str)
+    (h : parseMediaWith (bE e) s = .ok p) (hk2 : NoK2 p) (hk3 : NoK3 p)
+    (hrt : ∀ lines, p.writeLines = .ok lines → ∀ l ∈ lines, LineRT l)
+    (ht : p.show = .ok text) (h' : parseMediaWith (bE e) text = .ok p') : p'.show = p.show := by
+  obtain ⟨text2, t1, t2⟩ := media_roundtrip e s p h hk2 hk3 hrt
+  rw [ht] at t1; cases t1
+  rw [t2] at h'; cases h'; rfl
 
-/-- K3: `KEY a, KEY b(f), segment, KEY NONE, KEY a, segment` -/
-def k3Lines : List Line :=
-  [.targetDuration 10000000000, .key (some kA), .key (some kB), .inf inf1, .uri ['s', '0'],
-   .key none, .key (some kA), .inf inf1, .uri ['s', '1']]
-
-/-- K2: `MAP, KEY a, segment` -/
-def k2Lines : List Line :=
-  [.targetDuration 10000000000, .map ⟨['m'], none, []⟩, .key (some kA), .inf inf1, .uri ['s', '0']]
-
-/-- reading back what the writer produces for the parse of `ls` -/
-def writeThenParse (ls : List Line) : Res MediaPlaylist :=
-  match assembleMedia {} ls with
-  | .ok p =>
-    match p.writeLines with
-    | .ok lines => assembleMedia {} lines
-    | .err => .err
-    | .panic => .panic
-  | .err => .err
-  | .panic => .panic
-
+/-- the two recorded shapes on which the statement without `NoK2` / `NoK3` is false -/
 theorem k3_counterexample : (assembleMedia {} k3Lines).isOk = true ∧ (writeThenParse k3Lines).isOk = true ∧
-    writeThenParse k3Lines ≠ assembleMedia {} k3Lines := by decide
+    writeThenParse k3Lines ≠ assembleMedia {} k3Lines := C03K.k3_counterexample
 
 theorem k2_counterexample : (assembleMedia {} k2Lines).isOk = true ∧ (writeThenParse k2Lines).isOk = true ∧
-    writeThenParse k2Lines ≠ assembleMedia {} k2Lines := by decide
+    writeThenParse k2Lines ≠ assembleMedia {} k2Lines := C03K.k2_counterexample
 
-/-- a control: the same shapes without the defect round-trip exactly -/
+/-- non-vacuity of `media_write_parse`: a playlist with two key formats, a map, a reset and new
+keys satisfies `NoK2`, `NoK3`, and round-trips -/
 theorem control_roundtrip :
     writeThenParse [.targetDuration 10000000000, .key (some kA), .key (some kB), .map ⟨['m'], none, []⟩, .inf inf1, .uri ['s', '0'],
       .key none, .inf inf1, .uri ['s', '1'], .key (some kA), .key (some kB), .inf inf1, .uri ['s', '2']] =
     assembleMedia {} [.targetDuration 10000000000, .key (some kA), .key (some kB), .map ⟨['m'], none, []⟩, .inf inf1, .uri ['s', '0'],
-      .key none, .inf inf1, .uri ['s', '1'], .key (some kA), .key (some kB), .inf inf1, .uri ['s', '2']] := by decide
+      .key none, .inf inf1, .uri ['s', '1'], .key (some kA), .key (some kB), .inf inf1, .uri ['s', '2']] := C03K.control_roundtrip
 
 end Hls.C03
